@@ -2,6 +2,7 @@
 import sys
 
 from sa import report, rules_order as RO, rules_state as RS
+from sa import rules_extra as RX
 
 
 def run(ctx, repo):
@@ -22,7 +23,7 @@ def run(ctx, repo):
     RO.r_construct_cache(ctx, repo)
     RO.r_two_phase(ctx, repo)
     RO.r_generators_drained(ctx, repo)
-
+    RX.r_deep_forwarded(ctx, repo)
 
 if __name__ == '__main__':
     sys.exit(report.main('C13', 'other', run))
